@@ -42,6 +42,14 @@ pub fn run_case_f<F: Fam>(case: &Case, big: bool, focus: Option<Prop>) -> Outcom
         if let Err(f) = ctx.step(i, op) {
             let stats = ctx.stats.clone();
             let deferred = ctx.deferred.take();
+            if focus == Some(Prop::C06) && !f.has(Prop::C06) {
+                // see Ctx::salvage_teardown: a leak or double drop must not hide behind `f`
+                let f = match ctx.salvage_teardown(&f) {
+                    Some(own) => own,
+                    None => f,
+                };
+                return Outcome { stats, fail: Some(f), ops_done: i, deferred };
+            }
             // the maps may be inconsistent: leak them rather than run destructors on bad state
             std::mem::forget(ctx);
             return Outcome { stats, fail: Some(f), ops_done: i, deferred };
